@@ -17,7 +17,8 @@ JudgeRoundTrip(e) ==
     /\ (Has(e.args.doc) => DocStatus(Get(e.args.doc)) = "ok" /\ MatchDoc(Get(e.args.doc), e.args.p1))
     /\ RoundTripEq(e.args.p1, e.out.p2)
 
-JudgeEncode(e) == e.out.k = "ok" /\ EncodeOK(e.args.p1, e.out.doc)
+\* (a serialised form that is not even a JSON object is logged as [bad |-> ...]: rejected, not an evaluation error)
+JudgeEncode(e) == e.out.k = "ok" /\ "bad" \notin DOMAIN e.out.doc /\ EncodeOK(e.args.p1, e.out.doc)
 
 JudgeLookups(e) ==
     /\ e.out.k = "ok"
